@@ -123,9 +123,9 @@ def det_worker(args):
         for (entry_name, method, fo, io) in calls:
             special = None
             # grids that contain the initial time or a repeated time: only on the routes whose integrator accepts a
-            # zero-length step (scipy's dopri5 / dop853 report failure on it: outside the quantifier, DESIGN section 8)
-            zero_ok = entry_name in ("integrate", "solve_determ") or \
-                (entry_name == "integrate2" and method in ("lsoda", "vode", "ivode") and not fo)
+            # zero-length step: the odeint routes (scipy.integrate.ode wrappers may report failure on it: outside the quantifier,
+            # DESIGN section 8)
+            zero_ok = entry_name in ("integrate", "solve_determ")
             if zero_ok and rng.random() < 0.4:
                 special = rng.choice(["origin", "repeat"])
             grid = rd.time_grid(rng, tend, special=special)
